@@ -762,8 +762,6 @@ Proof.
 Qed.
 
 (** ** call by call *)
-Definition no_cleanup (c : call St Up) : Prop := match c with CCleanup _ _ => False | _ => True end.
-
 Lemma call_ok_next cur c cur' : call_ok cur c cur' -> next_mem _ _ cur c = cur'.
 Proof. intros OK. inversion OK; subst; reflexivity. Qed.
 
@@ -780,9 +778,57 @@ Lemma asinv_raise s base pend safe safe' : asinv s base pend safe ->
   asinv s base pend safe'.
 Proof. intros (A & L & Top & Hs & P) Hall Hle. split; [|split; [|split; [|split]]]; auto. Qed.
 
+Lemma cleanup_stale_benign_a s base pend safe gone lazy :
+  asinv s base pend safe -> Forall (benign base) (cleanup_stale_ops _ _ (view mkey_eqb s gone) lazy).
+Proof.
+  intros H. destruct (asinv_view _ _ _ _ gone H) as ([ND (sent & Hm) _ _ _] & _).
+  unfold cleanup_stale_ops. rewrite Forall_forall. intros o I.
+  apply in_flat_map in I. destruct I as (m' & _ & I).
+  destruct (get (view mkey_eqb s gone) (KMon m')) as [[sent' mon'|?|?]|] eqn:G; try contradiction.
+  unfold cleanup_to_ops in I. apply in_map_iff in I. destruct I as (i & <- & I). apply filter_In in I.
+  destruct I as (_ & Hi). destruct (Z.eq_dec m' m) as [->|Hne].
+  - rewrite Hm in G. inversion G; subst. right. exists i, lazy. split; auto. lia.
+  - left. cbn. apply Z.eqb_neq. exact Hne.
+Qed.
+
+Lemma sel_ops_forall (P : mop -> Prop) ops x : Forall P ops -> Forall P (sel_ops _ _ ops x).
+Proof.
+  intros F. destruct x as [|rem]; destruct ops as [|w rs]; cbn [sel_ops]; try constructor.
+  - inversion F; auto.
+  - apply select_forall. inversion F; auto.
+Qed.
+
+Lemma present_benign_ops base pend x0 : chain base pend -> In x0 pend ->
+  forall l (s0 : mstate), Forall (benign base) l ->
+  present (durable s0) (uid x0) -> present (durable (apply_sops mkey_eqb s0 l)) (uid x0).
+Proof.
+  intros C Ix. induction l as [|o l IHl]; intros s0 F0 (v0 & G0); [exists v0; exact G0|].
+  inversion F0 as [|? ? B F0']; subst. unfold apply_sops. cbn [fold_left]. apply IHl; auto.
+  pose proof (chain_in_range _ _ _ C Ix) as R.
+  destruct B as [T|(j & lazy & -> & Hj)].
+  - assert (Hk : KUpd m (uid x0) <> sop_key o) by (intros E; rewrite <- E in T; cbn in T; rewrite Z.eqb_refl in T; discriminate).
+    destruct o as [k0 v1|k0 [|]]; cbn [sop_key apply_sop durable] in *.
+    + exists v0. rewrite get_set_other; auto.
+    + exists v0. exact G0.
+    + exists v0. rewrite get_del_other; auto.
+  - destruct lazy; cbn [apply_sop durable]; [exists v0; exact G0|]. exists v0. rewrite get_del_other; auto.
+    intros Heq. inversion Heq. lia.
+Qed.
+
+(* a call whose store operations are all harmless: the in-memory monitor does not move *)
+Lemma async_benign_call s base pend safe l :
+  asinv s base pend safe -> Forall (benign base) l ->
+  asinv (apply_sops mkey_eqb s l) base pend safe /\
+  ((forall u, In u pend -> present (durable s) (uid u)) ->
+   forall u, In u pend -> present (durable (apply_sops mkey_eqb s l)) (uid u)).
+Proof.
+  intros H F. split; [apply asinv_benign_ops; auto|].
+  intros Hall u Iu. pose proof H as ([_ _ C _ _] & _). eapply present_benign_ops; eauto.
+Qed.
+
 (** one call of the asynchronous persister with an arbitrary durability outcome [x] *)
 Lemma async_call s base pend safe cur c cur' x :
-  asinv s base pend safe -> mem base pend = cur -> call_ok cur c cur' -> no_cleanup c ->
+  asinv s base pend safe -> mem base pend = cur -> call_ok cur c cur' ->
   exists base' pend',
     asinv (apply_sops mkey_eqb s (sel_ops _ _ (call_ops _ _ uid maxp s c) x)) base' pend' safe /\
     mem base' pend' = cur' /\
@@ -792,8 +838,8 @@ Lemma async_call s base pend safe cur c cur' x :
      forall u, In u pend' ->
        present (durable (apply_sops mkey_eqb s (sel_ops _ _ (call_ops _ _ uid maxp s c) x))) (uid u)).
 Proof.
-  intros H M OK NC. pose proof H as ([_ _ C _ _] & _ & Top & Hs & _).
-  inversion OK as [? u Eu Hl | ? | ? lazy gone | ? ops Fo]; subst; cbn [call_ops]; try contradiction.
+  intros H M OK. pose proof H as ([_ _ C _ _] & _ & Top & Hs & _).
+  inversion OK as [? u Eu Hl | ? | ? lazy gone | ? ops Fo]; subst; cbn [call_ops].
   - (* update *)
     unfold update_ops.
     destruct (negb (uid u =? LEGACY_ID) && negb (maxp =? 0) && negb (uid u mod maxp =? 0)) eqn:D.
@@ -839,53 +885,33 @@ Proof.
       * eapply asinv_write_monitor; eauto. lia.
       * intros n. right. rewrite firstn_nil. reflexivity.
       * intros _ _ x [].
+  - (* clean-up of stale updates, observing any view *)
+    pose proof (cleanup_stale_benign_a _ _ _ _ gone lazy H) as Fb.
+    destruct (async_benign_call _ _ _ _ _ H (sel_ops_forall _ _ x Fb)) as (A1 & A2).
+    exists base, pend. split; [exact A1|split; [reflexivity|split]].
+    + intros n. left. eauto.
+    + intros _ Hall. apply A2. exact Hall.
   - (* other traffic *)
     assert (Fb : Forall (benign base) ops) by (rewrite Forall_forall in *; intros o I; left; auto).
-    exists base, pend. split; [|split; [reflexivity|split]].
-    + apply asinv_benign_ops; auto. destruct x as [|rem]; destruct ops as [|w rs]; cbn [sel_ops]; try constructor.
-      * inversion Fb; auto.
-      * apply select_forall. inversion Fb; auto.
+    destruct (async_benign_call _ _ _ _ _ H (sel_ops_forall _ _ x Fb)) as (A1 & A2).
+    exists base, pend. split; [exact A1|split; [reflexivity|split]].
     + intros n. left. eauto.
-    + intros _ Hall x0 Ix. destruct (Hall _ Ix) as (v & G).
-      assert (Fb' : Forall (benign base) (sel_ops _ _ ops x)).
-      { destruct x as [|rem]; destruct ops as [|w rs]; cbn [sel_ops]; try constructor.
-        - inversion Fb; auto.
-        - apply select_forall. inversion Fb; auto. }
-      pose proof (asinv_raise _ _ _ _ (mid base) H Hall ltac:(apply mem_mid; auto)) as H2.
-      pose proof (asinv_benign_ops _ _ _ _ _ H2 Fb') as (_ & _ & _ & _ & P').
-      (* presence of every pending update is only guaranteed up to safe; redo it directly *)
-      clear P' H2.
-      revert Fb'. generalize (sel_ops _ _ ops x). intros l Fl.
-      assert (Gen : forall l s0, Forall (benign base) l ->
-                (exists v0, get (durable s0) (KUpd m (uid x0)) = Some v0) ->
-                exists v0, get (durable (apply_sops mkey_eqb s0 l)) (KUpd m (uid x0)) = Some v0).
-      { clear - C Ix. induction l as [|o l IHl]; intros s0 F0 (v0 & G0); [eauto|].
-        inversion F0 as [|? ? B F0']; subst. unfold apply_sops. cbn [fold_left]. apply IHl; auto.
-        pose proof (chain_in_range _ _ _ C Ix) as R.
-        destruct B as [T|(j & lazy & -> & Hj)].
-        - assert (Hk : KUpd m (uid x0) <> sop_key o) by (intros E; rewrite <- E in T; cbn in T; rewrite Z.eqb_refl in T; discriminate).
-          destruct o as [k0 v1|k0 [|]]; cbn [sop_key apply_sop durable] in *.
-          + exists v0. rewrite get_set_other; auto.
-          + eauto.
-          + exists v0. rewrite get_del_other; auto.
-        - destruct lazy; cbn [apply_sop durable]; [eauto|]. exists v0. rewrite get_del_other; auto.
-          intros Heq. inversion Heq. lia. }
-      apply Gen; eauto.
+    + intros _ Hall. apply A2. exact Hall.
 Qed.
 
 Lemma async_hist : forall cs sels s base pend safe cur fin,
-  asinv s base pend safe -> mem base pend = cur -> hist_ok cur cs fin -> Forall no_cleanup cs ->
+  asinv s base pend safe -> mem base pend = cur -> hist_ok cur cs fin ->
   exists base' pend', asinv (async_run _ _ uid maxp s cs sels) base' pend' safe /\
     forall n, (exists n0, mem base' (firstn n pend') = mem base (firstn n0 pend)) \/
               In (mem base' (firstn n pend')) (mems _ _ cur cs).
 Proof.
-  induction cs as [|c cs IH]; intros sels s base pend safe cur fin H M HO NC.
+  induction cs as [|c cs IH]; intros sels s base pend safe cur fin H M HO.
   - cbn. exists base, pend. split; auto. intros n. left. eauto.
   - destruct sels as [|x xs].
     + cbn. exists base, pend. split; auto. intros n. left. eauto.
-    + inversion HO as [|? ? cur' ? ? OK HO']; subst. inversion NC as [|? ? NC1 NC']; subst.
-      destruct (async_call _ _ _ _ _ _ _ x H eq_refl OK NC1) as (b1 & p1 & H1 & M1 & R1 & _).
-      destruct (IH xs _ _ _ _ _ _ H1 M1 HO' NC') as (b2 & p2 & H2 & R2).
+    + inversion HO as [|? ? cur' ? ? OK HO']; subst.
+      destruct (async_call _ _ _ _ _ _ _ x H eq_refl OK) as (b1 & p1 & H1 & M1 & R1 & _).
+      destruct (IH xs _ _ _ _ _ _ H1 M1 HO') as (b2 & p2 & H2 & R2).
       exists b2, p2. split; [exact H2|].
       intros n. cbn [mems]. rewrite (call_ok_next _ _ _ OK).
       destruct (R2 n) as [(n0 & E)|I].
@@ -899,17 +925,17 @@ Qed.
 Lemma async_hist_complete : forall cs sels s base pend cur fin,
   asinv s base pend (mid cur) -> mem base pend = cur ->
   (forall u, In u pend -> present (durable s) (uid u)) ->
-  hist_ok cur cs fin -> Forall no_cleanup cs ->
+  hist_ok cur cs fin ->
   List.length sels = List.length cs -> Forall (fun x => x <> SelNone) sels ->
   exists base' pend', asinv (async_run _ _ uid maxp s cs sels) base' pend' (mid fin) /\ mem base' pend' = fin /\
     (forall u, In u pend' -> present (durable (async_run _ _ uid maxp s cs sels)) (uid u)).
 Proof.
-  induction cs as [|c cs IH]; intros sels s base pend cur fin H M Hall HO NC Hlen Fs.
+  induction cs as [|c cs IH]; intros sels s base pend cur fin H M Hall HO Hlen Fs.
   - inversion HO; subst. cbn. exists base, pend. auto.
   - destruct sels as [|x xs]; [discriminate|].
-    inversion HO as [|? ? cur' ? ? OK HO']; subst. inversion NC as [|? ? NC1 NC']; subst.
+    inversion HO as [|? ? cur' ? ? OK HO']; subst.
     inversion Fs as [|? ? Fx Fs']; subst.
-    destruct (async_call _ _ _ _ _ _ _ x H eq_refl OK NC1) as (b1 & p1 & H1 & M1 & _ & P1).
+    destruct (async_call _ _ _ _ _ _ _ x H eq_refl OK) as (b1 & p1 & H1 & M1 & _ & P1).
     specialize (P1 Fx Hall).
     assert (H1' : asinv (apply_sops mkey_eqb s (sel_ops _ _ (call_ops _ _ uid maxp s c) x)) b1 p1 (mid cur')).
     { apply asinv_raise with (safe := mid (mem base pend)); auto. rewrite M1. lia. }
@@ -945,14 +971,14 @@ Proof. induction cs1; intros cur mid_ cs2 fin H1 H2; inversion H1; subst; cbn; a
 (** Asynchronous persister, ANY durability outcome of every call: recovery never fails and returns
     one of the in-memory monitors of the history. *)
 Theorem async_safe mon0 cs fin sels gone :
-  hist_ok mon0 cs fin -> Forall no_cleanup cs ->
+  hist_ok mon0 cs fin ->
   let s := async_run _ _ uid maxp (@empty_state St Up) (CNew m mon0 :: cs) (SelWrite [] :: sels) in
   exists r, read_with_updates _ _ apply uid (view mkey_eqb s gone) m = ROk r /\ In r (mems _ _ mon0 cs).
 Proof.
-  intros HO NC. cbv zeta. cbn [async_run call_ops]. unfold persist_new_ops. cbn [sel_ops select].
+  intros HO. cbv zeta. cbn [async_run call_ops]. unfold persist_new_ops. cbn [sel_ops select].
   change (apply_sops mkey_eqb (@empty_state St Up) [SWrite (KMon m) (VMon (negb (maxp =? 0)) mon0)])
     with (run_call _ _ uid maxp (@empty_state St Up) (CNew m mon0)).
-  destruct (async_hist cs sels _ _ _ _ _ _ (asinv_init mon0) eq_refl HO NC) as (b & p & H & R).
+  destruct (async_hist cs sels _ _ _ _ _ _ (asinv_init mon0) eq_refl HO) as (b & p & H & R).
   destruct (asinv_recover _ _ _ _ gone H) as (c & Rd & _).
   exists (mem b (firstn c p)). split; auto.
   destruct (R c) as [(n0 & E)|I]; auto. rewrite E. rewrite firstn_nil. cbn. destruct cs; cbn; auto.
@@ -961,25 +987,68 @@ Qed.
 (** ... and it is at least as recent as the in-memory monitor after the last call of a fully completed
     prefix of the history (everything reported persisted is included). *)
 Theorem async_reported mon0 cs1 cs2 fin1 fin sels1 sels2 gone :
-  hist_ok mon0 cs1 fin1 -> hist_ok fin1 cs2 fin -> Forall no_cleanup (cs1 ++ cs2) ->
+  hist_ok mon0 cs1 fin1 -> hist_ok fin1 cs2 fin ->
   List.length sels1 = List.length cs1 -> Forall (fun x => x <> SelNone) sels1 ->
   let s := async_run _ _ uid maxp (@empty_state St Up) (CNew m mon0 :: cs1 ++ cs2) (SelWrite [] :: sels1 ++ sels2) in
   exists r, read_with_updates _ _ apply uid (view mkey_eqb s gone) m = ROk r /\
             In r (mems _ _ mon0 (cs1 ++ cs2)) /\ mid fin1 <= mid r.
 Proof.
-  intros HO1 HO2 NC Hlen Fs. cbv zeta.
-  destruct (async_safe mon0 (cs1 ++ cs2) fin (sels1 ++ sels2) gone (hist_ok_app _ _ _ _ _ HO1 HO2) NC) as (r & Rd & In_r).
+  intros HO1 HO2 Hlen Fs. cbv zeta.
+  destruct (async_safe mon0 (cs1 ++ cs2) fin (sels1 ++ sels2) gone (hist_ok_app _ _ _ _ _ HO1 HO2)) as (r & Rd & In_r).
   exists r. split; auto. split; auto.
   cbv zeta in Rd. cbn [async_run call_ops] in Rd. unfold persist_new_ops in Rd. cbn [sel_ops select] in Rd.
   change (apply_sops mkey_eqb (@empty_state St Up) [SWrite (KMon m) (VMon (negb (maxp =? 0)) mon0)])
     with (run_call _ _ uid maxp (@empty_state St Up) (CNew m mon0)) in Rd.
   rewrite async_run_app in Rd by exact Hlen.
-  apply Forall_app in NC. destruct NC as (NC1 & NC2).
-  destruct (async_hist_complete cs1 sels1 _ _ _ _ _ (asinv_init mon0) eq_refl (fun u (I : In u []) => match I with end) HO1 NC1 Hlen Fs)
+  destruct (async_hist_complete cs1 sels1 _ _ _ _ _ (asinv_init mon0) eq_refl (fun u (I : In u []) => match I with end) HO1 Hlen Fs)
     as (b1 & p1 & H1 & M1 & _).
-  destruct (async_hist cs2 sels2 _ _ _ _ _ _ H1 M1 HO2 NC2) as (b2 & p2 & H2 & _).
+  destruct (async_hist cs2 sels2 _ _ _ _ _ _ H1 M1 HO2) as (b2 & p2 & H2 & _).
   destruct (asinv_recover _ _ _ _ gone H2) as (c & Rd2 & Hs2).
   rewrite Rd2 in Rd. inversion Rd; subst r. exact Hs2.
+Qed.
+
+(** * Failing store operations and crashes in the middle of a call *)
+Lemma firstn_select {A} : forall (l : list A) sel k, exists sel', firstn k (select l sel) = select l sel'.
+Proof.
+  induction l as [|x l IH]; intros sel k.
+  - exists []. destruct sel as [|[|] ?]; cbn; apply firstn_nil.
+  - destruct sel as [|[|] sel]; cbn [select].
+    + exists []. apply firstn_nil.
+    + destruct k; [exists []; reflexivity|]. destruct (IH sel k) as (s' & E). exists (true :: s'). cbn. rewrite E. reflexivity.
+    + destruct (IH sel k) as (s' & E). exists (false :: s'). cbn. exact E.
+Qed.
+
+Lemma firstn_sel_ops (ops : list mop) x k : exists x', firstn k (sel_ops _ _ ops x) = sel_ops _ _ ops x'.
+Proof.
+  destruct x as [|rem]; [exists (@SelNone); cbn; apply firstn_nil|].
+  destruct ops as [|w rs]; [exists (@SelNone); cbn; apply firstn_nil|].
+  destruct k; [exists (@SelNone); reflexivity|].
+  destruct (firstn_select rs rem k) as (rem' & E). exists (SelWrite rem'). cbn. rewrite E. reflexivity.
+Qed.
+
+(** Sync or async persister, every call of [cs1] completed (its write durable, ANY subset of its
+    removals applied - failed, lazy, or not yet executed), then the call [c] with ANY outcome [x]
+    (including: its write failed, so nothing of it was applied) interrupted after ANY number [k] of the
+    operations it did apply: recovery returns an in-memory monitor of the history at least as recent as
+    the one after [cs1], i.e. as everything reported persisted. *)
+Theorem faulty_crash_consistent mon0 cs1 fin1 c after sels1 x k gone :
+  hist_ok mon0 cs1 fin1 -> call_ok fin1 c after ->
+  List.length sels1 = List.length cs1 -> Forall (fun y => y <> SelNone) sels1 ->
+  let s1 := async_run _ _ uid maxp (@empty_state St Up) (CNew m mon0 :: cs1) (SelWrite [] :: sels1) in
+  let s := apply_sops mkey_eqb s1 (firstn k (sel_ops _ _ (call_ops _ _ uid maxp s1 c) x)) in
+  exists r, read_with_updates _ _ apply uid (view mkey_eqb s gone) m = ROk r /\
+            In r (mems _ _ mon0 (cs1 ++ [c])) /\ mid fin1 <= mid r.
+Proof.
+  intros HO1 OK Hlen Fs. cbv zeta.
+  destruct (firstn_sel_ops (call_ops _ _ uid maxp
+              (async_run _ _ uid maxp (@empty_state St Up) (CNew m mon0 :: cs1) (SelWrite [] :: sels1)) c) x k) as (x' & E).
+  rewrite E.
+  assert (HO2 : hist_ok fin1 [c] after) by (econstructor; eauto; constructor).
+  destruct (async_reported mon0 cs1 [c] fin1 after sels1 [x'] gone HO1 HO2 Hlen Fs) as (r & Rd & Ir & Hm).
+  exists r. split; [|split; auto].
+  cbv zeta in Rd. rewrite <- Rd. f_equal. f_equal.
+  cbn [async_run call_ops]. unfold persist_new_ops. cbn [sel_ops select].
+  rewrite !async_run_app by exact Hlen. cbn [async_run]. reflexivity.
 Qed.
 
 (** Clean-up safety, structurally: (a) the in-range clean-up of [update_persisted_channel] comes only
@@ -1016,3 +1085,8 @@ Qed.
 
 End Proofs.
 
+
+Lemma no_cleanup_after_failed_write :
+  forall (St Up : Type) (uid : Up -> Z) (maxp : Z) s c fails,
+  fails 0%nat = true -> call_ops_f St Up uid maxp s c fails = ([], false).
+Proof. intros St Up uid maxp s c fails H. unfold call_ops_f, sel_of_fails. rewrite H. reflexivity. Qed.
